@@ -554,9 +554,34 @@ class Prov:
 
     def root(self, fn, op, depth=0, seen=frozenset()):
         if op[0] == "k":
-            return ("const", HDict(op[1]))
+            c = op[1]
+            if c.get("promoted") is not None and fn.promoted:
+                inner = self._promoted_const(fn, c["promoted"])
+                if inner is not None:
+                    return inner
+            return ("const", HDict(c))
         loc, proj = op[1]
         return self.root_place(fn, loc, proj, depth, seen)
+
+    def _promoted_const(self, fn, idx):
+        """a promoted constant `&CONST` / `&"lit"` / `&Enum::Variant`: the root of what it refers to"""
+        try:
+            pb = fn.promoted[idx]
+        except Exception:
+            return None
+        found = []
+        for bi, b in enumerate(pb.blocks):
+            for si, s in enumerate(b["s"]):
+                if s[0] != "A":
+                    continue
+                rv = s[2]
+                if rv[0] == "use" and rv[1][0] == "k" and ("str" in rv[1][1] or "int" in rv[1][1]):
+                    found.append(("const", HDict(rv[1][1])))
+                elif rv[0] == "agg" and not rv[4]:
+                    found.append(("agg", rv[1], rv[2], -1 - idx, si))
+        if len(found) == 1:
+            return found[0]
+        return None
 
     def _wrap(self, r, fs):
         if not fs:
